@@ -55,3 +55,23 @@ def refs_validation(repo, tier):
     if r["violations"]:
         res["crash"] = "reference function disagrees with CPython: " + r["violations"][0][:300]
     return [res]
+
+
+def modulus_lemma(repo, tier):
+    """the arithmetic fact supplied to the islice proofs: for k >= 0, s >= 1
+       (k+1) mod s = ite(k mod s + 1 = s, 0, k mod s + 1)  and  0 <= k mod s < s      (proved here, once per run)"""
+    import time
+    import z3
+    k, s = z3.Ints("k s")
+    goal = z3.Implies(z3.And(k >= 0, s >= 1),
+                      z3.And((k + 1) % s == z3.If(k % s + 1 == s, 0, k % s + 1), k % s >= 0, k % s < s))
+    sol = z3.Solver()
+    sol.set("timeout", 60000)
+    sol.add(z3.Not(goal))
+    t = time.time()
+    r = sol.check()
+    ob = {"name": "lemma/modulus-step", "kind": "inv-declared", "status": "discharged" if r == z3.unsat else ("failed" if r == z3.sat else "unknown"),
+          "count": 1, "detail": f"z3 says {r} in {time.time() - t:.2f}s", "model": None, "trace": None}
+    res = _result("lemma:modulus-step", ("C01", "C05"), [ob])
+    res["mode"] = "prove"
+    return [res]
